@@ -57,6 +57,9 @@ pub struct Sink {
     pub samples: Vec<Value>,
     pub worlds: u64,
     pub ops: u64,
+    /// when set, every finished world's schedule is kept in execution order (run-level replay)
+    pub record: bool,
+    pub histories: Vec<(Vec<Value>, Vec<(String, String)>)>,
 }
 
 impl Sink {
@@ -71,9 +74,15 @@ impl Sink {
             samples: vec![],
             worlds: 0,
             ops: 0,
+            record: false,
+            histories: vec![],
         }
     }
     pub fn done(&mut self, w: World) {
+        if self.record {
+            let v: Vec<(String, String)> = w.violations.iter().map(|v| (v.property.clone(), v.oracle.clone())).collect();
+            self.histories.push((w.history.clone(), v));
+        }
         self.worlds += 1;
         self.ops += w.history.len() as u64;
         if !w.nondeterministic {
@@ -192,13 +201,47 @@ pub fn sample_prng(what: &str, sample: usize) -> Prng {
     Prng::new(mix(GLOBAL_SEED.load(Ordering::SeqCst), &[label(what), sample as u64]))
 }
 
+/// One run = one fresh OS thread: whatever per-thread state the library keeps (thread_local caches)
+/// starts empty, so a run is a pure function of (seed, property, tier, i) and can be replayed alone.
 pub fn run_one(f: RunFn, seed: u64, prop: &str, tier: Tier, i: usize) -> Sink {
+    run_one_rec(f, seed, prop, tier, i, false)
+}
+
+pub fn run_one_rec(f: RunFn, seed: u64, prop: &str, tier: Tier, i: usize, record: bool) -> Sink {
     GLOBAL_SEED.store(seed, Ordering::SeqCst);
-    CUR_RUN.with(|c| c.set(i));
-    let mut prng = Prng::new(run_seed(seed, prop, tier, i));
-    let mut sink = Sink::new(i);
-    f(&mut prng, tier, i, &mut sink);
-    sink
+    let prop = prop.to_string();
+    std::thread::Builder::new()
+        .stack_size(64 << 20)
+        .spawn(move || {
+            CUR_RUN.with(|c| c.set(i));
+            let mut prng = Prng::new(run_seed(seed, &prop, tier, i));
+            let mut sink = Sink::new(i);
+            sink.record = record;
+            f(&mut prng, tier, i, &mut sink);
+            sink
+        })
+        .expect("spawn run thread")
+        .join()
+        .unwrap_or_else(|_| {
+            eprintln!("HARNESS PANIC in run {i}");
+            std::process::exit(101)
+        })
+}
+
+/// The whole run as one schedule: every world in execution order, separated by `world.reset`,
+/// up to and including the first world that violates (property, oracle). Used when a violation
+/// depends on state the library kept from earlier worlds of the run.
+pub fn run_level_schedule(f: RunFn, seed: u64, prop: &str, tier: Tier, i: usize, oracle: &str) -> Option<Vec<Value>> {
+    let sink = run_one_rec(f, seed, prop, tier, i, true);
+    let mut out = vec![];
+    for (h, v) in sink.histories {
+        out.extend(h);
+        if v.iter().any(|(p, o)| p == prop && o == oracle) {
+            return Some(out);
+        }
+        out.push(json!({"op":"world.reset"}));
+    }
+    None
 }
 
 pub fn run_all(f: RunFn, seed: u64, prop: &str, tier: Tier, runs: usize, serial: bool) -> Merged {
@@ -258,9 +301,19 @@ pub fn exec_schedule(schedule: &[Value], keep_trace: bool) -> World {
     w
 }
 
+/// Re-execution for the minimiser, in a fresh thread: per-thread state the library may keep must
+/// not carry over from one candidate schedule to the next.
 fn fails_same(schedule: &[Value], property: &str, oracle: &str) -> bool {
-    let w = exec_schedule(schedule, false);
-    w.invalid.is_none() && w.violations.iter().any(|v| v.property == property && v.oracle == oracle)
+    let (s, p, o) = (schedule.to_vec(), property.to_string(), oracle.to_string());
+    std::thread::Builder::new()
+        .stack_size(64 << 20)
+        .spawn(move || {
+            let w = exec_schedule(&s, false);
+            w.invalid.is_none() && w.violations.iter().any(|v| v.property == p && v.oracle == o)
+        })
+        .ok()
+        .and_then(|h| h.join().ok())
+        .unwrap_or(false)
 }
 
 fn shrink_hex_fields(op: &Value) -> Vec<Value> {
@@ -296,8 +349,17 @@ fn shrink_hex_fields(op: &Value) -> Vec<Value> {
 
 /// Greedy delta debugging over the schedule: drop ops (chunks, then singles), then simplify ops.
 pub fn minimise(schedule: &[Value], property: &str, oracle: &str, budget: usize) -> (Vec<Value>, usize) {
+    let t0 = Instant::now();
+    // long (run-level) schedules get a wall-clock budget as well
+    let budget = if schedule.len() > 2000 { budget.min(60) } else { budget };
     let mut cur = schedule.to_vec();
     let mut tries = 0usize;
+    let fails_same = |s: &[Value], p: &str, o: &str| -> bool {
+        if t0.elapsed() > Duration::from_secs(120) {
+            return false;
+        }
+        fails_same(s, p, o)
+    };
     let mut chunk = (cur.len() / 2).max(1);
     while chunk >= 1 && tries < budget {
         let mut i = 0;
